@@ -1,7 +1,7 @@
 CONSTANTS
   StartLines <- SL_Two
   Cat <- Catalogue
-  HdrIdx = {1,2,3,4,6,7,9,10,11,12,14,15,16,17,21}
+  HdrIdx = {1,2,3,4,6,7,9,10,11,12,14,15,16,17,20,21}
   MaxH = 2
   Bodies <- Bodies4
   Peers <- PeersOne
